@@ -2442,10 +2442,11 @@ class Recipe:
                 else:
                     dest = self.results[dest_name]
 
+                dest_label = str(dest) if isinstance(dest, PlateSlicer) else dest_name
                 if isinstance(what, Substance):
-                    step.instructions = f"Remove {what.name} from '{dest_name}'."
+                    step.instructions = f"Remove {what.name} from '{dest_label}'."
                 else:
-                    step.instructions = f"Remove all {Substance.classes[what]} from '{dest_name}'."
+                    step.instructions = f"Remove all {Substance.classes[what]} from '{dest_label}'."
                 self.results[dest_name] = dest.remove(what)
                 step.to.append(self.results[dest_name])
                 # trash is everything that was in a container or well of step.to[0] and is gone from it in step.to[1]
